@@ -164,6 +164,11 @@ Example ex_client_no_loops :
   client_summary 0 (Some (mkFault SEpoll 0)) = (Started, 0, 0, 0, 0, 0).
 Proof. vm_compute. reflexivity. Qed.
 
+(* a client creates no listener: a socket(2) fault is never reached *)
+Example ex_client_sock_fault_not_reached :
+  client_summary 2 (Some (mkFault SSock 0)) = (Started, 0, 2, 2, 4, 2).
+Proof. vm_compute. reflexivity. Qed.
+
 Print Assumptions client_no_leak.
 Print Assumptions client_closes_once.
 Print Assumptions client_no_dup_closes.
